@@ -86,6 +86,21 @@ where
         Poll::Pending
     }
 
+    /// Reports the connection error, if there already is one, without registering a waker
+    ///
+    /// For calls on the connection which are not polled, like `shutdown()`
+    pub fn check_connection_error(&mut self) -> Result<(), ConnectionError> {
+        if let Some(ref error) = self.handled_connection_error {
+            return Err(error.clone());
+        };
+
+        if let Some(err) = self.get_conn_error() {
+            let err = self.close_if_needed(err);
+            return Err(self.convert_to_connection_error(err));
+        }
+        Ok(())
+    }
+
     /// Close the connection
     pub fn close_connection(&mut self, code: Code, reason: String) {
         self.conn.close(code, reason.as_bytes())
